@@ -1554,6 +1554,16 @@ static Node *asm_stmt(Token **rest, Token *tok) {
   return node;
 }
 
+// A case label is converted to the promoted type of the controlling
+// expression of the switch (C11 6.8.4.2p5).
+static long case_label(int64_t val, Type *ty) {
+  if (ty->size == 8)
+    return val;
+  if (ty->size == 4 && ty->is_unsigned)
+    return (uint32_t)val;
+  return (int32_t)val;
+}
+
 // stmt = "return" expr? ";"
 //      | "if" "(" expr ")" stmt ("else" stmt)?
 //      | "switch" "(" expr ")" stmt
@@ -1623,13 +1633,15 @@ static Node *stmt(Token **rest, Token *tok) {
       error_tok(tok, "stray case");
 
     Node *node = new_node(ND_CASE, tok);
-    int begin = const_expr(&tok, tok->next);
-    int end;
+    add_type(current_switch->cond);
+    Type *ty = current_switch->cond->ty;
+    long begin = case_label(const_expr(&tok, tok->next), ty);
+    long end;
 
     if (equal(tok, "...")) {
       // [GNU] Case ranges, e.g. "case 1 ... 5:"
-      end = const_expr(&tok, tok->next);
-      if (end < begin)
+      end = case_label(const_expr(&tok, tok->next), ty);
+      if ((ty->size == 8 && ty->is_unsigned) ? ((uint64_t)end < (uint64_t)begin) : (end < begin))
         error_tok(tok, "empty case range specified");
     } else {
       end = begin;
